@@ -69,7 +69,9 @@ Print Assumptions C03_extract_preserves_nonvacuous.
 
 (* A region is refused exactly when the refusal conditions fire, and then nothing is produced; the refusal
    conditions coincide with the shape hypothesis of the outlining lemma (control cannot escape an accepted
-   region). *)
+   region). A break/continue counts as escaping unless it lies in the BODY of a loop of the region: the
+   else-clause of a loop belongs to the enclosing loop (unmatched_bc_s, coq/C03/Flow.v), and C03_outline_sound
+   is proved for the semantics in which a break/continue of an else-clause leaves the enclosing loop. *)
 Theorem C03_refusal_no_change :
   forall sw glob params lc,
     (accepted (region lc) = false <-> extract sw glob params lc = None)
@@ -82,7 +84,12 @@ Print Assumptions C03_refusal_no_change.
 
 Example C03_refusal_nonvacuous :
   accepted (region ex_refused_ret) = false /\ accepted (region ex_refused_brk) = false
-  /\ accepted (region ex_loop) = true.
+  /\ accepted (region ex_loop) = true
+  (* an inner loop selected with its else-clause: `continue` there belongs to the outer loop => refused; with
+     a harmless else-clause the matched `break` of the body is fine => accepted, and extracted correctly *)
+  /\ accepted (region ex_refused_else) = false /\ accepted (region ex_accepted_else) = true
+  /\ outline_ok ex_accepted_else [va] (args_rope current false [va] ex_accepted_else)
+                 (rets_rope current false [va] ex_accepted_else) false = true.
 Proof. vm_compute. repeat split; reflexivity. Qed.
 Print Assumptions C03_refusal_nonvacuous.
 
@@ -126,7 +133,7 @@ Print Assumptions C03_extract_correct_partial.
 (* the class is inhabited by a region that reads and updates two names, preceded by a loop and followed by a
    conditional that REASSIGNS one of them (allowed since f6cf806) and a return *)
 Example C03_collector_sufficient_nonvacuous :
-  side_C03 [va] [SAssign 2 vx (EConst 0); SWhile 3 (EBin Lt (EVar vx) (EVar va)) [SAug 4 vx Add (EConst 1)];
+  side_C03 [va] [SAssign 2 vx (EConst 0); SWhile 3 (EBin Lt (EVar vx) (EVar va)) [SAug 4 vx Add (EConst 1)] [];
                  SAssign 5 vy (EVar va)]
            [SAug 6 vy Add (EVar vx); SAssign 7 vz (EBin Mul (EVar vy) (EConst 2)); SPrint 8 (EVar vz)]
            [SIf 9 (EVar vz) [SAssign 10 vy (EConst 0)] []; SReturn 11 (EBin Add (EVar vz) (EVar vy))] = true.
